@@ -248,7 +248,7 @@ def main(tier, replay):
         if any(g.get('errtype') in PRECOND_ERRORS for g in gs) or tr['end'].get('etype') in PRECOND_ERRORS:
             print('outside C01: first/last/mean(reduce) met an empty group (the plain operator raises by design)')
             return 0
-        v, _ = C.validate_traces('PlainTrace', [{'pipe': pipe, 'modeled': modeled(pipe), 'oracle': 'pair',
+        v, _ = C.validate_traces('PlainTrace', [{'pipe': pipe, 'modeled': modeled(pipe) and not M._has_fl(w['groups']), 'oracle': 'pair',
                                                  'groups': [{k: g[k] for k in g if k != 'errtype'}
                                                             for g in gs]}])
         print('pipeline:', ' '.join(MC.op_names(pipe)))
@@ -410,6 +410,25 @@ def main(tier, replay):
             skipped += 1
             continue
         traces.append({'pipe': pipe, 'modeled': modeled(pipe), 'oracle': 'pair',
+                       'groups': [{k: g[k] for k in g if k != 'errtype'} for g in gs]})
+        mux_traces.append(tr)
+        meta.append({'mode': 'direct', 'groups': groups, 'sched_seed': sched_seed})
+    # dedicated: floats whose sums are not representable, of differing magnitude, on interleaved
+    # keys: the two modes fold the same items in the same order - equal to the last bit
+    FL = [0.1, 0.2, 4.7, 1e8 + 0.3, 123456.789, -0.07, 3.3, 1e-3, 2.5e7 + 0.11, 0.30000000000000004, 7.0]
+    faggs = [[G.op_agg('sum', False)], [G.op_agg('sum', True)], [G.op_agg('mean', False)],
+             [G.op_scan('add', ['fl', (0.5).hex()])],       # (a float seed: scan types its state after the seed)
+             [G.op_agg('max', True)], [G.op_tee('zip', [[G.op_agg('sum', False)], [{'op': 'count', 'reduce': False}]])],
+             [G.op_agg('sum', False), G.op_agg('sum', False)]]
+    for _ in range(120 if thorough else 40):
+        pipe = rng.choice(faggs)
+        groups = []
+        for idx in rng.sample([0, 1, 4], rng.choice([2, 3])):
+            for _g in range(rng.choice([1, 2])):
+                groups.append((idx, [['fl', rng.choice(FL).hex()] for _ in range(rng.randint(1, 8))]))
+        sched_seed = rng.randint(0, 10**9)
+        tr, gs = pair_direct(random.Random(sched_seed), pipe, groups)
+        traces.append({'pipe': pipe, 'modeled': False, 'oracle': 'pair',
                        'groups': [{k: g[k] for k in g if k != 'errtype'} for g in gs]})
         mux_traces.append(tr)
         meta.append({'mode': 'direct', 'groups': groups, 'sched_seed': sched_seed})
